@@ -80,6 +80,9 @@ pub struct Profile {
     pub full_exits: bool,
     /// many more holders than the fixed cast (addresses 301…345) and contract upgrades in between
     pub crowd: bool,
+    /// the owner wires the hub in several UpdateConfig messages, with anybody's messages (forged
+    /// balance mirrors, early bonds, re-pointing attempts) arriving inside the deployment window
+    pub staged: bool,
 }
 
 pub fn profile(name: &str) -> Profile {
@@ -99,6 +102,7 @@ pub fn profile(name: &str) -> Profile {
         stub_faults: false,
         full_exits: false,
         crowd: false,
+        staged: false,
     };
     match name {
         "mixed" => base,
@@ -186,6 +190,13 @@ pub fn profile(name: &str) -> Profile {
             w: [10, 3, 3, 2, 1, 40, 2, 2, 1, 0, 4, 5, 4, 1, 0, 0, 2, 0],
             ..base
         },
+        // staged deployment: partial registrations, strangers' messages inside the window
+        "deploy" => Profile {
+            name: "deploy",
+            staged: true,
+            w: [10, 6, 8, 4, 4, 14, 3, 6, 2, 0, 4, 5, 4, 1, 0, 1, 3, 2],
+            ..base
+        },
         // admin: config / params / ownership / pause
         "admin" => Profile {
             name: "admin",
@@ -200,6 +211,8 @@ pub struct Gen {
     pub rng: Rng,
     pub p: Profile,
     pub nvals: usize,
+    /// staged deployment: steps left inside the window (0 = the hub is wired)
+    pub deploy_left: u32,
 }
 
 fn tx(sender: Id, target: Id, call: Call) -> Op {
@@ -211,10 +224,11 @@ fn txf(sender: Id, target: Id, call: Call, amt: u128) -> Op {
 
 impl Gen {
     pub fn new(seed: u64, family: &str) -> Gen {
-        Gen { rng: Rng::new(seed), p: profile(family), nvals: 3 }
+        Gen { rng: Rng::new(seed), p: profile(family), nvals: 3, deploy_left: 0 }
     }
 
     pub fn genesis(&mut self) -> Vec<Op> {
+        self.deploy_left = if self.p.staged { 3 + self.rng.below(8) as u32 } else { 0 };
         let r = &mut self.rng;
         let epoch = r.pick(&self.p.epochs);
         let unbonding = r.pick(&self.p.unbondings);
@@ -256,11 +270,16 @@ impl Gen {
                 denoms: vec![0, 1, 2],
             }),
             Op::Inst(Inst::Reg { sender: OWNER, hub: HUB, vals }),
-            tx(
-                OWNER,
-                HUB,
-                Call::Hub(HubMsg::UConfig([Some(DISP), Some(REG), Some(BSEI), Some(STSEI), Some(AIRDROP), Some(REWARD), None])),
-            ),
+            if self.p.staged {
+                // the wiring follows step by step (next_op)
+                Op::Env(EnvOp::Advance(1))
+            } else {
+                tx(
+                    OWNER,
+                    HUB,
+                    Call::Hub(HubMsg::UConfig([Some(DISP), Some(REG), Some(BSEI), Some(STSEI), Some(AIRDROP), Some(REWARD), None])),
+                )
+            },
             Op::Env(EnvOp::UnbondingTime(unbonding)),
             Op::Env(EnvOp::Advance(unbonding + 1)),
         ];
@@ -337,7 +356,64 @@ impl Gen {
         }
     }
 
+    /// one step inside the deployment window
+    fn deploy_step(&mut self, c: &Chain) -> Op {
+        let wired = c.hub_wiring();
+        let (d, g, b, s, a, w) = (wired[0].is_some(), wired[1].is_some(), wired[2].is_some(), wired[3].is_some(), wired[4].is_some(), wired[5].is_some());
+        self.deploy_left -= 1;
+        if self.deploy_left == 0 {
+            // complete the wiring with whatever is still missing
+            let f = |done: bool, x: Id| if done { None } else { Some(x) };
+            return tx(OWNER, HUB, Call::Hub(HubMsg::UConfig([f(d, DISP), f(g, REG), f(b, BSEI), f(s, STSEI), f(a, AIRDROP), f(w, REWARD), None])));
+        }
+        let r = &mut self.rng;
+        let u = r.pick(&USERS);
+        match r.below(12) {
+            // the owner registers one or two of the missing addresses
+            0 | 1 | 2 | 3 => {
+                let mut f: [Option<Id>; 7] = [None; 7];
+                let missing: Vec<(usize, Id)> = [(0, d, DISP), (1, g, REG), (2, b, BSEI), (3, s, STSEI), (4, a, AIRDROP), (5, w, REWARD)]
+                    .iter()
+                    .filter(|x| !x.1)
+                    .map(|x| (x.0, x.2))
+                    .collect();
+                if missing.is_empty() {
+                    return tx(OWNER, HUB, Call::Hub(HubMsg::UConfig([None; 7])));
+                }
+                let k = 1 + r.below(2) as usize;
+                for _ in 0..k {
+                    let (i, x) = missing[r.below(missing.len() as u64) as usize];
+                    f[i] = Some(x);
+                }
+                tx(OWNER, HUB, Call::Hub(HubMsg::UConfig(f)))
+            }
+            // the owner (or a stranger) tries to re-point a token address, set or not
+            4 | 5 => {
+                let mut f: [Option<Id>; 7] = [None; 7];
+                let other = r.pick(&[u, STSEI, BSEI, 9]);
+                f[2 + r.below(2) as usize] = Some(other);
+                let who = if r.chance(3, 4) { OWNER } else { u };
+                tx(who, HUB, Call::Hub(HubMsg::UConfig(f)))
+            }
+            // a stranger forges the balance mirror / plays the hub or a token
+            6 | 7 => {
+                let amt = 1 + r.below128(1_000_000);
+                let who = r.pick(&[u, u, OWNER, 9]);
+                let call = if r.chance(2, 3) { RewMsg::Inc(r.pick(&USERS), amt) } else { RewMsg::Dec(r.pick(&USERS), amt) };
+                tx(who, REWARD, Call::Reward(call))
+            }
+            8 => tx(r.pick(&[u, OWNER]), r.pick(&[BSEI, STSEI]), Call::Tok(TokMsg::Mint(u, 1 + r.below128(1_000_000)))),
+            // early use
+            9 => txf(u, HUB, Call::Hub(HubMsg::Bond), 1 + r.below128(1000)),
+            10 => txf(u, HUB, Call::Hub(HubMsg::BondSt), 1 + r.below128(1000)),
+            _ => tx(u, HUB, Call::Hub(HubMsg::Receive(u, 1 + r.below128(1000), Hook::Unbond))),
+        }
+    }
+
     pub fn next_op(&mut self, c: &Chain) -> Op {
+        if self.deploy_left > 0 {
+            return self.deploy_step(c);
+        }
         // a paged read now and then: from nowhere, from 0, from a stored id, from beyond the end,
         // with the default, a zero, a small, the maximal and an over-the-maximum page size
         if self.rng.chance(1, 40) {
@@ -558,7 +634,14 @@ impl Gen {
                         tx(OWNER, REG, Call::Reg(RegMsg::Remove(w)))
                     }
                     4 => tx(u, REG, Call::Reg(RegMsg::Redelegations(v))),
-                    _ => Op::Env(EnvOp::NoRedel(v, self.rng.chance(1, 2))),
+                    _ => {
+                        if self.rng.chance(1, 3) {
+                            // the validator drops out of (or returns to) the chain's active set
+                            Op::Env(EnvOp::Inactive(v, self.rng.chance(2, 3)))
+                        } else {
+                            Op::Env(EnvOp::NoRedel(v, self.rng.chance(1, 2)))
+                        }
+                    }
                 }
             }
             16 => self.admin_op(c),
